@@ -87,10 +87,13 @@ def tasks(tier, seed):
         T.append(('multigrid', Ms, qd, ns, True))  # prolongation of values and right-hand sides
     for Ms, qd, ns in ([((3, 2, 2), 'LU', (1, 1, 1)), ((3, 2), 'IE', (1, 1))] if quick else [((3, 2, 2), 'LU', (1, 1, 1)), ((3, 2), 'IE', (1, 1)), ((3, 2, 1), 'IE', (1, 2, 1)), ((4, 3, 2), 'LU', (1, 1, 1))]):
         T.append(('multigrid', Ms, qd, ns, False, True))  # two cycles on the same step, the start value changes in between
+    T.append(('shipped_transfers',))
     return T
 
 
 def run_task(rep, task):
+    if task[0] == 'shipped_transfers':
+        return shipped_transfer_case(rep)  # (real float classes: no shadows installed)
     sp.install_shadows()
     if task[0] == 'fixedpoint':
         fixedpoint_case(rep, task[1:3], task[3], task[4], task[5], qts=(task[6] if len(task) > 6 else None))
@@ -845,6 +848,60 @@ def float_multigrid(Ms, qd, ns, lam, dtf, env, finter=False, second=False):
     if second:
         spec = mg_spec(tabs, Ms, ns, z, env['u0b'], spec, lin, solve)
     return float(np.abs(got - np.asarray(spec, dtype=float)).max())
+
+
+def shipped_transfer_case(rep):
+    """the multilevel iteration with the SHIPPED space transfer classes on shipped problems (real floats, ENUMERATED): the iterates must not depend on the
+    object identity of what restrict / prolong return.  Each configuration is run twice -- with the class as shipped and with a subclass that hands
+    out a fresh copy of every result -- and all fine node values, right-hand sides and the end value must agree bit for bit (results that alias
+    a work array change the iteration, e.g. the right-hand-side prolongation, which collects the results for all nodes before combining them)"""
+    from pySDC.implementations.controller_classes.controller_nonMPI import controller_nonMPI
+    from pySDC.implementations.problem_classes.AdvectionDiffusionEquation_1D_FFT import advectiondiffusion1d_imex, advectiondiffusion1d_implicit
+    from pySDC.implementations.problem_classes.HeatEquation_ND_FD import heatNd_unforced
+    from pySDC.implementations.sweeper_classes.imex_1st_order import imex_1st_order
+    from pySDC.implementations.sweeper_classes.generic_implicit import generic_implicit
+    from pySDC.implementations.transfer_classes.TransferMesh import mesh_to_mesh
+    from pySDC.implementations.transfer_classes.TransferMesh_FFT import mesh_to_mesh_fft
+    from pySDC.implementations.transfer_classes.TransferMesh_NoCoarse import mesh_to_mesh as no_coarse
+
+    def copying(T):
+        class Copying(T):
+            def restrict(self, F):
+                r = super().restrict(F)
+                return type(r)(r)
+
+            def prolong(self, G):
+                r = super().prolong(G)
+                return type(r)(r)
+
+        return Copying
+
+    cfgs = [('fft/imex', advectiondiffusion1d_imex, {'nvars': [16, 8], 'c': 0.5, 'freq': 2, 'nu': 0.05}, imex_1st_order, mesh_to_mesh_fft, {}),
+            ('fft/implicit', advectiondiffusion1d_implicit, {'nvars': [16, 8], 'c': 0.5, 'freq': 2, 'nu': 0.05}, generic_implicit, mesh_to_mesh_fft, {}),
+            ('fd/heat', heatNd_unforced, {'nvars': [15, 7], 'nu': 0.1, 'freq': 2, 'bc': 'dirichlet-zero'}, generic_implicit, mesh_to_mesh, {'rorder': 2, 'iorder': 4}),
+            ('nocoarse/imex', advectiondiffusion1d_imex, {'nvars': 16, 'c': 0.5, 'freq': 2, 'nu': 0.05}, imex_1st_order, no_coarse, {})]
+    for name, pc, pp, sw, T, tp in cfgs:
+        for finter in (False, True):
+            for NL in (2, 3):
+                if NL == 3 and isinstance(pp['nvars'], list):
+                    pp3 = dict(pp, nvars=pp['nvars'] + [pp['nvars'][-1]])
+                else:
+                    pp3 = pp
+                res = []
+                try:
+                    for cls in (T, copying(T)):
+                        d = dict(problem_class=pc, problem_params=dict(pp3 if NL == 3 else pp), sweeper_class=sw, sweeper_params={'num_nodes': [3, 2, 2][:NL], 'quad_type': 'RADAU-RIGHT'},
+                                 level_params={'dt': 0.05, 'restol': -1.0}, step_params={'maxiter': 2}, space_transfer_class=cls, space_transfer_params=dict(tp), base_transfer_params={'finter': finter})
+                        ctl = controller_nonMPI(1, {'logger_level': 50, 'dump_setup': False}, d)
+                        P = ctl.MS[0].levels[0].prob
+                        uend, _ = ctl.run(P.u_exact(0.0), 0.0, 0.05)
+                        L = ctl.MS[0].levels[0]
+                        res.append([np.array(uend).tobytes()] + [np.array(x).tobytes() for x in L.u[1:]] + [np.array(x).tobytes() for x in L.f[1:]])
+                    rep.translator += 1
+                    rep.side(f'shipped-transfer/{name}/finter{int(finter)}/NL{NL}:iteration-independent-of-result-identity', res[0] == res[1],
+                             {'differing_entries': [i for i, (a, b) in enumerate(zip(res[0], res[1])) if a != b]})
+                except Exception as e:
+                    rep.side(f'shipped-transfer/{name}/finter{int(finter)}/NL{NL}:runs', False, f'{type(e).__name__}: {e}')
 
 
 def replay(path):
